@@ -28,20 +28,21 @@ let byte_tab = Array.init 256 n_of_int
 
 let sizes (s : string) : int list =
   if s = "-" || s = "" then [] else
-  List.concat_map (fun it ->
+  let rec rep v k acc = if k = 0 then acc else rep v (k - 1) (v :: acc) in
+  List.rev (List.fold_left (fun acc it ->
     match String.split_on_char 'x' it with
-    | [a] -> [int_of_string a]
-    | [a; b] -> List.init (int_of_string b) (fun _ -> int_of_string a)
-    | _ -> failwith "size") (String.split_on_char ',' s)
+    | [a] -> int_of_string a :: acc
+    | [a; b] -> rep (int_of_string a) (int_of_string b) acc
+    | _ -> failwith "size") [] (String.split_on_char ',' s))
 
-let rec split_chunks (data : int list) (szs : int list) : n list list =
-  match szs with
-  | [] -> if data = [] then [] else [List.map (fun b -> byte_tab.(b)) data]
-  | k :: rest ->
-    let rec take k l acc = if k = 0 then (List.rev acc, l) else
-      match l with [] -> (List.rev acc, []) | x :: r -> take (k - 1) r (byte_tab.(x) :: acc) in
-    let (c, l) = take k data [] in
-    c :: split_chunks l rest
+let split_chunks (data : int list) (szs : int list) : n list list =
+  let rec take k l acc = if k = 0 then (List.rev acc, l) else
+    match l with [] -> (List.rev acc, []) | x :: r -> take (k - 1) r (byte_tab.(x) :: acc) in
+  let rec go data szs acc =
+    match szs with
+    | [] -> List.rev (if data = [] then acc else List.rev (List.rev_map (fun b -> byte_tab.(b)) data) :: acc)
+    | k :: rest -> let (c, l) = take k data [] in go l rest (c :: acc) in
+  go data szs []
 
 let kind_s = function
   | ROk -> "ok" | REOF -> "eof" | RUnexpectedEOF -> "ueof"
@@ -55,7 +56,7 @@ let handle (line : string) : string =
     let data = bytes_of_hex hex in
     let cs = split_chunks data (sizes chunks) in
     let t = if term = "eof" then TEOF else TErr in
-    let rs = List.map n_of_int (sizes reads) in
+    let rs = List.rev (List.rev_map n_of_int (sizes reads)) in
     let (l, consumed) = erun_ext (n_of_int (int_of_string bufsize)) cs t rs in
     let b = Buffer.create 4096 in
     Buffer.add_string b (string_of_int (int_of_n consumed));
